@@ -5,8 +5,9 @@
 //   driver --root DIR --helper NAME=PATH [--helper NAME=PATH] --tier quick|thorough [--shard K N] [--deadline EPOCH_SECONDS]
 //   driver --root DIR --helper NAME=PATH ... --tier T --slice GRID DEPTH LENCLASS        (replay of one slice)
 //
-// A "slice" is one cell: (grid A/B, depth, total length), (grid C, slot of the special name, total length) or
-// (grid D, depth, position of the long name); its cases are flavour-or-name-shape x invocation (x helper build).
+// A "slice" is one cell: (grid A/B, depth, total length), (grid C, slot of the special name, total length),
+// (grid D, depth, position of the long name), (grid E, install path, "states") or (grid F, depth, position of the dot-family
+// name [@ total length]); its cases are flavour-or-name-shape-or-state x invocation (x helper build).
 #include "report.hpp"
 
 #include <algorithm>
@@ -100,6 +101,12 @@ namespace
         std::vector<int> mixed_depths, mixed_flavours, mixed_invocations;
         // grid E: process state left behind by earlier calls (STATES) x a few install paths of grid A/D (STATE_PATHS)
         std::vector<int> state_paths, state_invocations;
+        // grid F: every name of the DOT FAMILY (dotfamily()) as the component at EVERY position of a path of ordinary short names
+        // (each directory level and the program name), and as all components at once; dot_long_lens: in addition total lengths
+        // reached by padding the other names (plain), at depth dot_long_depth
+        std::vector<int> dot_depths, dot_invocations;
+        std::vector<int> dot_long_lens;
+        int dot_long_depth = 17;
     };
     const std::vector<std::string>& states()
     {
@@ -154,6 +161,76 @@ namespace
             {"only-highbytes", "\xff\xfe\xfd\x80"},
             {"only-utf8-nonascii", "\xc3\xa9\xe6\xbc\xa2"},
             {"only-latin1-controls", "\x80\x9f\xa0"},
+            // round 5: further families of whole-component shapes that path-normalising / prefix-searching code could mangle
+            // (the dot family has its own grid F)
+            {"percent-encoded-dotdot", "%2e%2e"},           // URL decoding
+            {"percent-encoded-slash", "a%2Fb"},
+            {"percent-encoded-space", "a%20b"},
+            {"percent-encoded-nul", "a%00b"},
+            {"tilde-user", "~root"},                        // home expansion
+            {"same-as-bin-directory", "bin"},               // a component equal to another component of the same path:
+            {"same-as-program-name", "prog"},               //   code that searches for a name instead of cutting components
+            {"exe-suffix", "prog.exe"},                     // suffix stripping
+            {"app-bundle-suffix", "Prog.app"},
+            {"url-scheme", "file:"},
+            {"colon-inside", "a:b"},                        // PATH-list / drive separators
+            {"semicolon-inside", "a;b"},
+            {"fullwidth-dots", "\xef\xbc\x8e\xef\xbc\x8e"},   // U+FF0E U+FF0E: compatibility-normalises to ".."
+            {"one-dot-leaders", "\xe2\x80\xa4\xe2\x80\xa4"}, // U+2024 U+2024
+            {"overlong-encoded-dots", "\xc0\xae\xc0\xae"},     // the classic overlong (invalid) UTF-8 spelling of ".."
+            {"decomposed-accent", "e\xcc\x81t\xc3\xa9"},       // NFD next to NFC: Unicode-normalising code changes bytes
+            {"windows-device-name", "NUL"},
+            {"windows-device-name-ext", "con.txt"},
+            {"two-spaces", "  "},
+            {"glob-class", "[a-z]"},
+            {"brace-list", "{a,b}"},
+        };
+        return v;
+    }
+
+    // grid F: the DOT FAMILY.  On POSIX only the two names "." and ".." are special; every other name made of or containing
+    // dots is an ordinary name, and a canonical path (what the property speaks about) never contains "." or ".." components.
+    // So whole components are the only place where dots can appear: leading, trailing, inner, only dots, next to the bytes
+    // that neighbour a separator in other notations (blank, backslash), next to non-ASCII bytes, short and NAME_MAX long.
+    const std::vector<shape_def>& dotfamily()
+    {
+        static const std::vector<shape_def> v = {
+            {"dot-name", ".hidden"},
+            {"dot-letter", ".a"},
+            {"dotdot-name", "..data"},                      // Kubernetes volume directories
+            {"dotdot-letter", "..a"},
+            {"dotdot-timestamp", "..2024_01_01_00_00_00.123456"},
+            {"three-dots", "..."},
+            {"four-dots", "...."},
+            {"five-dots", "....."},
+            {"three-dots-letter", "...a"},
+            {"dot-space", ". "},
+            {"dotdot-space", ".. "},
+            {"space-dot", " ."},
+            {"space-dotdot", " .."},
+            {"dot-space-dot", ". ."},
+            {"dotdot-space-dotdot", ".. .."},
+            {"dot-backslash", ".\\"},
+            {"dotdot-backslash", "..\\"},
+            {"dotdot-backslash-name", "..\\x"},
+            {"dotdot-highbyte", "..\xff"},
+            {"dot-utf8", ".\xc3\xa9"},
+            {"dotdot-newline", "..\n"},
+            {"dotdot-deleted", ".. (deleted)"},
+            {"dotdot-255-bytes", ".." + std::string(size_t(NAME_MAX - 2), 'k')},
+            {"dots-255-bytes", std::string(size_t(NAME_MAX), '.')},
+            {"inner-dot", "a.b"},
+            {"inner-dotdot", "a..b"},
+            {"inner-three-dots", "a...b"},
+            {"version-dots", "v1.2.3"},
+            {"letter-dot", "a."},
+            {"letter-dotdot", "a.."},
+            {"name-dot", "name."},
+            {"name-dotdot", "name.."},
+            {"name-three-dots", "name..."},
+            {"dot-name-dot", ".a."},
+            {"dotdot-name-dotdot", "..a.."},
+            {"dots-everywhere", ".a..b."},
         };
         return v;
     }
@@ -176,6 +253,8 @@ namespace
             t.mixed_invocations = {I_DIRECT, I_LINK_FILE};
             t.state_paths = {0, 1, 2};
             t.state_invocations = {I_DIRECT};
+            t.dot_depths = {1, 4};
+            t.dot_invocations = {I_DIRECT, I_LINK_FILE};
         }
         else
         {
@@ -196,6 +275,9 @@ namespace
             t.mixed_invocations = t.invocations;
             t.state_paths = {0, 1, 2, 3};
             t.state_invocations = {I_DIRECT, I_RELATIVE, I_LINK_FILE};
+            t.dot_depths = {1, 2, 3, 4, 5, 8, 17};
+            t.dot_invocations = t.invocations;
+            t.dot_long_lens = {1024, 4095};
         }
         return t;
     }
@@ -653,6 +735,56 @@ namespace
                 out.push_back(sp);
             }
         }
+        else if (sl.grid == "F")
+        {
+            // lenclass = "<position>" | "all" | "<position>@<total length>"; position = index of the dot-family name among the
+            // depth+1 names (0 = first directory below the root ... depth = the program name)
+            invocations = T.dot_invocations;
+            const size_t n = size_t(sl.depth) + 1;
+            if (sl.depth < 1) die("bad dot-family cell");
+            std::string posw = sl.lenclass;
+            long total = 0;
+            size_t atsign = posw.find('@');
+            if (atsign != std::string::npos) { total = std::atol(posw.c_str() + atsign + 1); posw.erase(atsign); }
+            const bool all = posw == "all";
+            const size_t at = all ? 0 : size_t(std::atol(posw.c_str()));
+            if (!all && (posw.empty() || posw.find_first_not_of("0123456789") != std::string::npos || at >= n)) die("bad dot-family position");
+            if (all && total) die("bad dot-family cell: 'all' has no padding names");
+            for (const shape_def& sh : dotfamily())
+            {
+                spec sp;
+                sp.label = sh.label;
+                std::vector<std::string> names(n);
+                bool ok = true;
+                if (!total)
+                    for (size_t i = 0; i < n; ++i) names[i] = (all || i == at) ? sh.name : component(F_PLAIN, int(i), 3 + int(i % 4));
+                else
+                {
+                    long S = total - R - long(n) - long(sh.name.size()), m = long(n) - 1, j = 0;
+                    if (m < 1 || S < m || S > long(NAMEMAX) * m) ok = false;
+                    for (size_t i = 0; ok && i < n; ++i)
+                    {
+                        if (i == at) { names[i] = sh.name; continue; }
+                        names[i] = component(F_PLAIN, int(i), int(S / m + (j < S % m ? 1 : 0)));
+                        ++j;
+                    }
+                }
+                size_t L = size_t(R);
+                for (auto& x : names) L += 1 + x.size();
+                if (ok && L > size_t(MAXLEN)) ok = false;
+                if (ok && total && long(L) != total) die("internal: length bookkeeping (grid F)");
+                if (ok)
+                {
+                    const std::set<size_t> keepset = {0, at, n - 2, n - 1};
+                    const std::vector<size_t> keep(keepset.begin(), keepset.end());
+                    sp.names = names;
+                    sp.what = "dot-family name " + std::string(sh.label) + " as " + (all ? std::string("EVERY component")
+                        : at == n - 1 ? std::string("the program name") : "directory " + std::to_string(at + 1) + " of " + std::to_string(n - 1))
+                        + ", depth " + std::to_string(n - 1) + ", total length " + std::to_string(L) + " bytes, path " + relpath_shown(names, keep);
+                }
+                out.push_back(sp);
+            }
+        }
         else die("unknown grid " + sl.grid);
         return out;
     }
@@ -729,7 +861,7 @@ namespace
                     vf::stat("evaluations");
                     vf::stat(std::string("runs_") + INVOCATIONS[inv]);
                     vf::stat("runs_grid_" + sl.grid);
-                    if (sl.grid != "C" && sl.grid != "E") vf::stat("runs_flavour_" + sp.label);
+                    if (sl.grid != "C" && sl.grid != "E" && sl.grid != "F") vf::stat("runs_flavour_" + sp.label);
                     if (L >= 1024) vf::stat("runs_with_path_ge_1024");
                     vf::smax("max_path_length", L);
                     vf::smax("max_depth", depth);
@@ -774,8 +906,8 @@ namespace
             {
                 std::set<std::pair<int, int>> byf, byi;
                 for (auto& p : present) { if (ff.count(p.first)) byf.insert(p); if (fi.count(p.second)) byi.insert(p); }
-                if (F == byf && ff.size() > 6) scope = std::to_string(ff.size()) + "-of-" + std::to_string(specs.size()) + (sl.grid == "C" ? "-names" : sl.grid == "E" ? "-states" : "-flavours");
-                else if (F == byf) { scope = sl.grid == "C" ? "name=" : sl.grid == "E" ? "state=" : "flavour="; for (int f : ff) scope += std::string(scope.back() == '=' ? "" : "+") + specs[size_t(f)].label; }
+                if (F == byf && ff.size() > 6) scope = std::to_string(ff.size()) + "-of-" + std::to_string(specs.size()) + (sl.grid == "C" || sl.grid == "F" ? "-names" : sl.grid == "E" ? "-states" : "-flavours");
+                else if (F == byf) { scope = sl.grid == "C" || sl.grid == "F" ? "name=" : sl.grid == "E" ? "state=" : "flavour="; for (int f : ff) scope += std::string(scope.back() == '=' ? "" : "+") + specs[size_t(f)].label; }
                 else if (F == byi) { scope = "invocation="; for (int i : fi) scope += std::string(scope.back() == '=' ? "" : "+") + INVOCATIONS[i]; }
                 else scope = "some";
             }
@@ -822,6 +954,8 @@ int main(int argc, char** argv)
     g_realroot = rp;
 
     tier_def T = make_tier(tier);
+    vf::smax("grid_C_name_shapes", (long long) shapes().size());
+    vf::smax("grid_F_dot_family_names", (long long) dotfamily().size());
     std::vector<slice> slices;
     if (one) slices.push_back(one_slice);
     else
@@ -838,6 +972,13 @@ int main(int argc, char** argv)
         for (int d : T.mixed_depths)
             for (const char* p : MIXED_POS) slices.push_back(slice{"D", d, p});
         for (int k : T.state_paths) slices.push_back(slice{"E", k, "states"});
+        for (int d : T.dot_depths)
+        {
+            for (int p = 0; p <= d; ++p) slices.push_back(slice{"F", d, std::to_string(p)});
+            slices.push_back(slice{"F", d, "all"});
+        }
+        for (int l : T.dot_long_lens)
+            for (int p = 0; p <= T.dot_long_depth; ++p) slices.push_back(slice{"F", T.dot_long_depth, std::to_string(p) + "@" + std::to_string(l)});
     }
     long mine = 0, done_n = 0;
     for (size_t i = 0; i < slices.size(); ++i)
